@@ -5,7 +5,7 @@
    epsilons, covariates, time; undefined symbols allowed), programs are arbitrary statement lists
    (reassignments, self references, piecewise, systems anywhere). *)
 From Coq Require Import QArith List Bool PArith Arith.
-From PV Require Import Base.PyData Base.Expr Base.Stmts C07.Model C07.Proofs.
+From PV Require Import Base.PyData Base.Expr Base.Interp Base.Stmts C07.Model C07.Proofs.
 
 (* make_declarative leaves the final value of EVERY symbol unchanged on EVERY valid model (g_valid: every
    symbol is a parameter / rv / column or defined before it is read, no statement assigns a parameter / rv /
@@ -70,6 +70,25 @@ Theorem rename_preserves :
     forall x, In x (all_ssyms l ++ extra) ->
       sexec fi ode r' (rename d l) (ren d x) = sexec fi ode r l x.
 Proof. intros d extra l H fi ode. exact (rename_preserves_lemma fi ode d extra l H). Qed.
+
+(* greekify_model = rename_symbols with Model.greek_table.  A renaming whose targets are pairwise different and
+   are not names of the model (what theta_<i>, sigma_<r><c>, eta_<i>, epsilon_<i> are for a model that does not
+   already use such names) is injective on the model's names, hence commutes with execution: for every table,
+   program, interpretation, solver oracle, environment. *)
+Theorem rename_fresh_injective :
+  forall (d : list (id * id)) (S : list id),
+    NoDup (map snd d) -> (forall t, In t (map snd d) -> ~ In t S) ->
+    forall x y, In x S -> In y S -> ren d x = ren d y -> x = y.
+Proof. exact ren_fresh_injective. Qed.
+
+Theorem rename_fresh_preserves :
+  forall (fi : finterp) (ode : id -> list (option Q) -> option Q) (d : list (id * id)) (S : list id) (l : list stm),
+    NoDup (map snd d) -> (forall t, In t (map snd d) -> ~ In t S) ->
+    (forall x, In x (all_ssyms l) -> In x S) ->
+    amounts_unrenamed d l = true ->
+    forall r r', (forall x, In x S -> r' (ren d x) = r x) ->
+    forall x, In x S -> sexec fi ode r' (rename d l) (ren d x) = sexec fi ode r l x.
+Proof. exact rename_fresh_preserves_lemma. Qed.
 
 (* statements.subs(d) with constants (replace_non_random_rvs: etas and omegas of a distribution fixed
    to zero become 0) changes no value when the substituted symbols already have these values. *)
@@ -166,6 +185,37 @@ Theorem ipred_expr_sound :
     ipred_expr l dv epss = Some y -> ~ In dv (amounts l) ->
     eval r fi y = sexec fi ode (upd_map r fi (zeros epss)) l dv.
 Proof. exact ipred_expr_sound_lemma. Qed.
+
+(* mu_reference_model.  [etas]: the etas of the model with their symbols mu_<index>; [table]: for every
+   rewritten statement what sympy answered (mu_expr, new_def) — sympy's as_independent / solve are engines.
+   Whenever every answer solves its equation (new_def[mu := mu_expr] = old_def wherever mu_expr is defined), the
+   inserted mu symbols are fresh and evaluate to defined values, the statement list that the selection
+   (_find_eta_assignments), skip ("mu already used") and insertion logic produces gives EVERY symbol of the
+   original program its original value: all programs, tables, interpretations, solver oracles, environments. *)
+Theorem mu_reference_preserves :
+  forall (fi : finterp) (ode : id -> list (option Q) -> option Q) (etas : list (id * id))
+         (table : list (nat * (expr * expr))) (l out : list stm),
+    mu_reference etas table l = Some out ->
+    let sel := find_eta_assignments (map fst etas) l in
+    g_mu_fresh etas table sel l = true ->
+    (forall j p old mu m new, nth_error l j = Some (SAssign p old) ->
+        mu_action etas table sel j (SAssign p old) = MRewrite mu m p new -> forall r0, sol_at fi mu m new old r0) ->
+    forall r, mu_run_ok fi ode etas table sel l 0 r ->
+    forall x, ~ In x (inserted_mus etas table sel l 0) -> sexec fi ode r out x = sexec fi ode r l x.
+Proof. exact mu_reference_preserves_lemma. Qed.
+
+(* the additive form  P = T + eta  ->  mu = T ; P = mu + eta  solves its equation in every interpretation *)
+Theorem mu_additive_form_sol :
+  forall (fi : finterp) (T : expr) (eta mu : id) (r : env), mu <> eta ->
+    sol_at fi mu T (Add (Sym mu) (Sym eta)) (Add T (Sym eta)) r.
+Proof. exact additive_sol. Qed.
+
+(* the exponential form  P = T * exp(eta)  ->  mu = log(T) ; P = exp(mu + eta)  solves its equation in every
+   interpretation where exp(log t + e) = t * exp(e) wherever log t is defined *)
+Theorem mu_exponential_form_sol :
+  forall (fi : finterp) (T : expr) (eta mu : id) (r : env), mu <> eta -> exp_log_law fi ->
+    sol_at fi mu (Fn1 F_LOG T) (Fn1 F_EXP (Add (Sym mu) (Sym eta))) (Mul T (Fn1 F_EXP (Sym eta))) r.
+Proof. exact exponential_sol. Qed.
 
 (* the statement type of this model extends Base.Stmts: same semantics on embedded programs *)
 Theorem sexec_embeds_base :
